@@ -15,7 +15,7 @@ def run(ctx):
     plans = [
         {"world": "focus_rounds", "cover": True, "steps": 6 if q else 7, "avoid": True, "crash": False},
         # concurrent callers: an add request applied partly (one target accepted, another conflicting) still has to reach both consumers
-        {"world": "focus_conc", "conc": True, "steps": 6 if q else 7},
+        {"world": "focus_conc", "conc": True, "steps": 6 if q else 7, "cap": None if q else 80000},
         {"world": "consumers", "sim": 6 if q else 40, "steps": 9 if q else 12, "avoid": True, "cap": 350 if q else 5000, "seeds": 1 if q else 3},
         {"world": "happy", "sim": 3 if q else 20, "steps": 8 if q else 10, "avoid": True, "cap": 150 if q else 3000, "seeds": 1 if q else 2},
     ]
